@@ -1220,3 +1220,534 @@ func rulePolarity(c *Ctx, which string) {
 }
 
 func polarity(which string) func(*Ctx) { return func(c *Ctx) { rulePolarity(c, which) } }
+
+// ---------- G-proto/value: with a protocol field on the line, the reported protocol is that field ----------
+
+// ruleProtoFromLine: on every feasible path from the edge `len(parts) >= 5` to
+// a commit, the value last stored into Client.protocol derives from parts[4]
+// (through conversions and copies) and not from a constant. The net/rpc
+// default is for lines without the field; applying it to a field that is
+// present but empty accepts a line whose protocol is not in the allowed list
+// and reports a protocol the line does not carry.
+func ruleProtoFromLine(c *Ctx) {
+	p := c.P
+	si := p.startInfo(c, "R-GATE")
+	if si == nil {
+		return
+	}
+	f, g, info := si.f, si.g, si.info
+	protoF := p.FieldObj(modPath, "Client", "protocol")
+	var starts []*Node
+	for _, m := range g.Nodes {
+		for _, e := range m.Succs {
+			at, ok := edgeAtom(info, e)
+			if !ok || at.Kind != "len" || identObj(info, at.X) != types.Object(si.parts) {
+				continue
+			}
+			if (at.Op == token.GEQ && at.K == 5) || (at.Op == token.GTR && at.K == 4) {
+				starts = append(starts, e.To)
+			}
+		}
+	}
+	if len(starts) == 0 {
+		c.R.Undecided("R-GATE", f.Name, "G-proto/value", "no edge `len(parts) >= 5` found")
+		return
+	}
+	origin := func(s Store, e ast.Expr) string {
+		e = ast.Unparen(e)
+		for i := 0; i < 3; i++ {
+			if call, ok := e.(*ast.CallExpr); ok && len(call.Args) == 1 {
+				if tv, ok := info.Types[call.Fun]; ok && tv.IsType() {
+					e = ast.Unparen(call.Args[0])
+					continue
+				}
+			}
+			break
+		}
+		if ix, ok := e.(*ast.IndexExpr); ok && identObj(info, ix.X) == types.Object(si.parts) {
+			if k, isK := constInt(info, ix.Index); isK && k == 4 {
+				return "F5"
+			}
+		}
+		if _, isS := constString(info, e); isS {
+			return "K"
+		}
+		if v, ok := identObj(info, e).(*types.Var); ok && !v.IsField() {
+			return s.Get("O:" + varKey(v))
+		}
+		return ""
+	}
+	pd := &pathDomain{p: p, f: f}
+	type item struct {
+		n *Node
+		s Store
+	}
+	seen := map[*Node]map[string]bool{}
+	var work []item
+	push := func(n *Node, s Store) {
+		k := s.Key()
+		if seen[n] == nil {
+			seen[n] = map[string]bool{}
+		}
+		if seen[n][k] || len(seen[n]) >= stateCap {
+			return
+		}
+		seen[n][k] = true
+		work = append(work, item{n, s})
+	}
+	for _, st := range starts {
+		push(st, NewStore())
+	}
+	isCommit := map[*Node]bool{}
+	for _, m := range si.commits {
+		isCommit[m] = true
+	}
+	var bad *Node
+	nCommit := 0
+	for len(work) > 0 && bad == nil {
+		cur := work[len(work)-1]
+		work = work[:len(work)-1]
+		if isCommit[cur.n] {
+			nCommit++
+			if cur.s.Get("O:CP") == "K" {
+				bad = cur.n
+			}
+			continue
+		}
+		outs := []Store{cur.s}
+		if cur.n.Kind == NNormal {
+			outs = pd.Transfer(cur.n, cur.s)
+		}
+		for _, o := range outs {
+			if as, ok := cur.n.Ast.(*ast.AssignStmt); ok && len(as.Lhs) == len(as.Rhs) {
+				for i, l := range as.Lhs {
+					og := origin(cur.s, as.Rhs[i])
+					key := ""
+					if SelField(info, l) == protoF {
+						key = "O:CP"
+					} else if v, ok := identObj(info, l).(*types.Var); ok && !v.IsField() {
+						key = "O:" + varKey(v)
+					}
+					if key == "" {
+						continue
+					}
+					if og == "" {
+						o = o.Without(key)
+					} else {
+						o = o.With(key, og)
+					}
+				}
+			}
+			if vs, ok := cur.n.Ast.(*ast.ValueSpec); ok && len(vs.Values) == len(vs.Names) {
+				for i, nm := range vs.Names {
+					if v, ok := info.Defs[nm].(*types.Var); ok {
+						if og := origin(cur.s, vs.Values[i]); og != "" {
+							o = o.With("O:"+varKey(v), og)
+						}
+					}
+				}
+			}
+			for _, e := range cur.n.Succs {
+				if s2, ok := pd.Refine(e, o); ok {
+					push(e.To, s2)
+				}
+			}
+		}
+	}
+	construct := "G-proto/value"
+	if bad != nil {
+		c.R.Violate("R-GATE", p.Pos(bad.Ast), f.Name, construct,
+			"on a line that has a protocol field the value stored in Client.protocol can be a constant (the net/rpc default) instead of the field: a present-but-empty protocol field is then accepted as net/rpc although it is not in the allowed list, and the reported protocol is not the one on the line", nil)
+	} else {
+		c.R.Hold("R-GATE", p.Pos(starts[0].Ast), f.Name, construct, fmt.Sprintf("on every feasible path from `len(parts) >= 5` to a commit the last store to Client.protocol does not carry a constant (%d commit arrivals)", nCommit), true)
+	}
+}
+
+// ---------- R-NIL/result: a result that can be nil together with a nil error is guarded before use ----------
+
+// ruleNilResult: a module function with an explicit `return nil, nil` hands out
+// a nil pointer without an error. At every call site whose value result is
+// bound, a method call or field access through that value must be behind a
+// `v != nil` test or the true edge of a predicate of the value that implies it
+// (a method whose body is `return recv != nil`), unless the method called is
+// itself safe on a nil receiver.
+func ruleNilResult(c *Ctx) {
+	p := c.P
+	// functions with a pointer result #0 and an explicit `return nil, nil`
+	nilNil := map[*Func]bool{}
+	for _, f := range p.Funcs {
+		if f.Decl == nil || f.Type.Results == nil || f.Obj == nil {
+			continue
+		}
+		sig := f.Obj.Type().(*types.Signature)
+		if sig.Results().Len() != 2 || !isErrorType(sig.Results().At(1).Type()) {
+			continue
+		}
+		if _, isPtr := sig.Results().At(0).Type().Underlying().(*types.Pointer); !isPtr {
+			continue
+		}
+		info := f.Pkg.TypesInfo
+		walkNoLit(f.Body, func(x ast.Node) bool {
+			if rs, ok := x.(*ast.ReturnStmt); ok && len(rs.Results) == 2 && isNilIdent(info, rs.Results[0]) && isNilIdent(info, rs.Results[1]) {
+				nilNil[f] = true
+			}
+			return true
+		})
+	}
+	// methods safe on a nil receiver / predicates that imply a non-nil receiver
+	nilSafe := map[*types.Func]bool{}
+	impliesNN := map[*types.Func]bool{}
+	for _, f := range p.Funcs {
+		if f.Decl == nil || f.Decl.Recv == nil || len(f.Decl.Recv.List) != 1 || len(f.Decl.Recv.List[0].Names) != 1 || f.Obj == nil {
+			continue
+		}
+		info := f.Pkg.TypesInfo
+		rv := info.Defs[f.Decl.Recv.List[0].Names[0]]
+		if rv == nil || len(f.Body.List) == 0 {
+			continue
+		}
+		// `return recv != nil` (possibly && more)
+		if rs, ok := f.Body.List[0].(*ast.ReturnStmt); ok && len(rs.Results) == 1 {
+			e := ast.Unparen(rs.Results[0])
+			for {
+				if be, ok := e.(*ast.BinaryExpr); ok && be.Op == token.LAND {
+					e = ast.Unparen(be.X)
+					continue
+				}
+				break
+			}
+			if be, ok := e.(*ast.BinaryExpr); ok && be.Op == token.NEQ && identObj(info, be.X) == rv && isNilIdent(info, be.Y) {
+				nilSafe[f.Obj] = true
+				impliesNN[f.Obj] = true
+			}
+		}
+		// `if recv == nil { return ... }` first
+		if ifs, ok := f.Body.List[0].(*ast.IfStmt); ok {
+			if be, ok := ast.Unparen(ifs.Cond).(*ast.BinaryExpr); ok && be.Op == token.EQL && identObj(info, be.X) == rv && isNilIdent(info, be.Y) {
+				nilSafe[f.Obj] = true
+			}
+		}
+	}
+	n := 0
+	for _, f := range p.Funcs {
+		if strings.HasSuffix(p.Fset.Position(f.Body.Pos()).Filename, "testing.go") {
+			continue
+		}
+		info := f.Pkg.TypesInfo
+		g := p.Graph(f)
+		for _, m := range g.Nodes {
+			as, ok := m.Ast.(*ast.AssignStmt)
+			if !ok || len(as.Rhs) != 1 || len(as.Lhs) != 2 {
+				continue
+			}
+			call, ok := ast.Unparen(as.Rhs[0]).(*ast.CallExpr)
+			if !ok {
+				continue
+			}
+			ce := p.FnOf(asFunc(p.Callee(f, call)))
+			if ce == nil || !nilNil[ce] {
+				continue
+			}
+			v, _ := identObj(info, as.Lhs[0]).(*types.Var)
+			if v == nil || v.Name() == "_" {
+				continue
+			}
+			n++
+			cut := func(e *Edge) bool {
+				at, ok := edgeAtom(info, e)
+				if !ok {
+					return false
+				}
+				if at.Kind == "nil" && at.Op == token.NEQ && identObj(info, at.X) == v {
+					return true
+				}
+				if at.Kind == "call" && at.True {
+					if pc, isC := at.X.(*ast.CallExpr); isC {
+						if se, isS := ast.Unparen(pc.Fun).(*ast.SelectorExpr); isS && identObj(info, se.X) == v {
+							if fo, isF := p.Callee(f, pc).(*types.Func); isF && impliesNN[fo.Origin()] {
+								return true
+							}
+						}
+					}
+				}
+				return false
+			}
+			redef := func(x *Node) bool {
+				if x.Ast == nil || x == m {
+					return false
+				}
+				defs, _ := nodeDefsUses(info, x.Ast)
+				_, re := defs[v]
+				return re
+			}
+			seen := g.ReachAfter(m, redef, cut)
+			var bad ast.Node
+			for x := range seen {
+				if x.Ast == nil {
+					continue
+				}
+				// including closures created here: they capture the value as it is
+				ast.Inspect(x.Ast, func(y ast.Node) bool {
+					se, ok := y.(*ast.SelectorExpr)
+					if !ok || identObj(info, se.X) != v {
+						return true
+					}
+					if fo, isF := info.Uses[se.Sel].(*types.Func); isF {
+						if nilSafe[fo.Origin()] {
+							return true
+						}
+					}
+					bad = se
+					return true
+				})
+			}
+			construct := "result of " + ce.Name + " guarded before use"
+			if bad != nil {
+				c.R.Violate("R-NIL/result", p.Pos(bad), f.Name, construct,
+					ce.Name+" can return a nil value together with a nil error, and `"+exprStr(bad)+"` uses the value on a path that has not established that it is non-nil (no `!= nil` test, no nil-safe predicate of the value on its true edge): the host dereferences a nil pointer", nil)
+			} else {
+				c.R.Hold("R-NIL/result", p.Pos(as), f.Name, construct, "every use through the value is behind a non-nil test, a predicate that implies it, or calls a nil-safe method", true)
+			}
+		}
+	}
+	if n == 0 {
+		c.R.Undecided("R-NIL/result", "", "instance-floor", "no call site of a function that can return (nil, nil) found, at least 1 expected (getGRPCMuxer)")
+	}
+}
+
+// ---------- R-DEFER/args: what a deferred call is meant to see later is not evaluated now ----------
+
+// ruleDeferArgs: the arguments of a deferred call are evaluated when the defer
+// statement executes. An argument that asks an object for its final state
+// (`x.Err()`), or an error variable that is assigned again afterwards, hands
+// the deferred function the value from before the work was done.
+func ruleDeferArgs(c *Ctx) {
+	p := c.P
+	n, bad := 0, 0
+	for _, f := range p.Funcs {
+		if strings.HasSuffix(p.Fset.Position(f.Body.Pos()).Filename, "testing.go") {
+			continue
+		}
+		info := f.Pkg.TypesInfo
+		g := p.Graph(f)
+		for _, m := range g.Nodes {
+			ds, ok := m.Ast.(*ast.DeferStmt)
+			if !ok {
+				continue
+			}
+			if _, isLit := ast.Unparen(ds.Call.Fun).(*ast.FuncLit); isLit && len(ds.Call.Args) == 0 {
+				continue
+			}
+			n++
+			for _, a := range ds.Call.Args {
+				why := ""
+				ast.Inspect(a, func(x ast.Node) bool {
+					if _, isLit := x.(*ast.FuncLit); isLit {
+						return false
+					}
+					if call, ok := x.(*ast.CallExpr); ok {
+						if se, ok := ast.Unparen(call.Fun).(*ast.SelectorExpr); ok && se.Sel.Name == "Err" && len(call.Args) == 0 {
+							why = "`" + exprStr(call) + "` is evaluated when the defer statement runs, before the work whose outcome it is meant to report"
+						}
+					}
+					return true
+				})
+				if v, ok := identObj(info, a).(*types.Var); ok && why == "" && isErrorType(v.Type()) && !v.IsField() {
+					// assigned again after the defer?
+					for x := range g.ReachAfter(m, nil, nil) {
+						if x.Ast == nil {
+							continue
+						}
+						defs, _ := nodeDefsUses(info, x.Ast)
+						if _, re := defs[v]; re {
+							why = "the error variable `" + v.Name() + "` is passed by value at the defer statement and assigned again afterwards (" + p.Pos(x.Ast) + ")"
+						}
+					}
+				}
+				if why != "" {
+					bad++
+					c.R.Violate("R-DEFER/args", p.Pos(ds), f.Name, "deferred call sees the final state: "+exprStr(ds.Call.Fun),
+						why+": the deferred function always receives the early (nil) value, so the clean-up or fallback it guards never happens", nil)
+				}
+			}
+		}
+	}
+	// the same slip after the arguments were hoisted into locals (which is what
+	// the normaliser does when it inlines a deferred helper call): a snapshot
+	// `v := x.Err()` taken before x is advanced (Scan, Read, Next, Recv) and
+	// read afterwards or in a deferred closure
+	for _, f := range p.Funcs {
+		if strings.HasSuffix(p.Fset.Position(f.Body.Pos()).Filename, "testing.go") {
+			continue
+		}
+		info := f.Pkg.TypesInfo
+		g := p.Graph(f)
+		for _, m := range g.Nodes {
+			as, ok := m.Ast.(*ast.AssignStmt)
+			if !ok || len(as.Lhs) != 1 || len(as.Rhs) != 1 {
+				continue
+			}
+			call, ok := ast.Unparen(as.Rhs[0]).(*ast.CallExpr)
+			if !ok || len(call.Args) != 0 {
+				continue
+			}
+			se, ok := ast.Unparen(call.Fun).(*ast.SelectorExpr)
+			if !ok || se.Sel.Name != "Err" {
+				continue
+			}
+			xo := identObj(info, se.X)
+			v, _ := identObj(info, as.Lhs[0]).(*types.Var)
+			if xo == nil || v == nil {
+				continue
+			}
+			advanced := false
+			usedLater := false
+			after := g.ReachAfter(m, nil, nil)
+			for x := range after {
+				if x.Ast == nil {
+					continue
+				}
+				ast.Inspect(x.Ast, func(y ast.Node) bool {
+					if c2, ok := y.(*ast.CallExpr); ok {
+						if s2, ok := ast.Unparen(c2.Fun).(*ast.SelectorExpr); ok && identObj(info, s2.X) == xo {
+							switch s2.Sel.Name {
+							case "Scan", "Read", "ReadLine", "ReadString", "ReadBytes", "Next", "Recv":
+								advanced = true
+							}
+						}
+					}
+					if id, ok := y.(*ast.Ident); ok && info.Uses[id] == v {
+						usedLater = true
+					}
+					return true
+				})
+			}
+			if advanced && usedLater {
+				bad++
+				c.R.Violate("R-DEFER/args", p.Pos(as), f.Name, "snapshot of "+exprStr(call)+" is not taken before the work",
+					"`"+exprStr(as.Lhs[0])+"` records "+exprStr(call)+" before "+exprStr(se.X)+" is advanced and is consulted afterwards (in a deferred call or later): it always holds the initial nil, so the fallback it guards (draining the rest of the pipe) never runs", nil)
+			}
+		}
+	}
+	if bad == 0 {
+		c.R.Hold("R-DEFER/args", "-", "", "deferred calls do not capture a not-yet-final state", fmt.Sprintf("%d defer statements with arguments or a named callee examined", n), true)
+	}
+}
+
+// ---------- R-TABLE/stdio sinks: the synced streams go to the sync writers ----------
+
+func ruleSyncSinks(c *Ctx) {
+	p := c.P
+	outF := p.FieldObj(modPath, "ClientConfig", "SyncStdout")
+	errF := p.FieldObj(modPath, "ClientConfig", "SyncStderr")
+	n := 0
+	for _, f := range p.Funcs {
+		if strings.HasSuffix(p.Fset.Position(f.Body.Pos()).Filename, "testing.go") {
+			continue
+		}
+		info := f.Pkg.TypesInfo
+		ast.Inspect(f.Body, func(x ast.Node) bool {
+			call, ok := x.(*ast.CallExpr)
+			if !ok || len(call.Args) != 2 {
+				return true
+			}
+			nm := p.CalleeName(f, call)
+			if nm != modPath+".RPCClient.SyncStreams" && nm != modPath+".grpcStdioClient.Run" {
+				return true
+			}
+			n++
+			resolve := func(e ast.Expr) *types.Var {
+				e = ast.Unparen(p.Deref(f, e))
+				return SelField(info, e)
+			}
+			a, b := resolve(call.Args[0]), resolve(call.Args[1])
+			construct := "sinks of " + shortName(nm)
+			if a == outF && b == errF && outF != nil {
+				c.R.Hold("R-TABLE/stdio", p.Pos(call), f.Name, construct, "(ClientConfig.SyncStdout, ClientConfig.SyncStderr)", true)
+			} else {
+				c.R.Violate("R-TABLE/stdio", p.Pos(call), f.Name, construct,
+					"the synced streams are handed ("+exprStr(call.Args[0])+", "+exprStr(call.Args[1])+") instead of (config.SyncStdout, config.SyncStderr): the plugin's synced output goes to another writer (ClientConfig.Stderr is the sink of the process's own stderr and defaults to discard) and never reaches the sync writer", nil)
+			}
+			return true
+		})
+	}
+	if n < 2 {
+		c.R.Undecided("R-TABLE/stdio", "", "sinks", fmt.Sprintf("only %d calls that wire the sync writers found, 2 expected (net/rpc and gRPC)", n))
+	}
+}
+
+// ---------- R-GUARD/iter: a lazy iterator over a guarded map is consumed under the lock ----------
+
+// ruleLazyIter: maps.Keys / maps.Values / maps.All (and slices.Values/All)
+// return iterators that read the collection while they are ranged over, not
+// when they are created. An iterator created from a struct field with a mutex
+// held must be consumed with that mutex still held; ranging over it after the
+// unlock reads the map concurrently with its writers.
+func ruleLazyIter(c *Ctx) {
+	p := c.P
+	n, bad := 0, 0
+	for _, f := range p.Funcs {
+		if strings.HasSuffix(p.Fset.Position(f.Body.Pos()).Filename, "testing.go") {
+			continue
+		}
+		info := f.Pkg.TypesInfo
+		g := p.Graph(f)
+		for _, call := range f.Calls() {
+			switch p.CalleeName(f, call) {
+			case "maps.Keys", "maps.Values", "maps.All", "slices.Values", "slices.All":
+			default:
+				continue
+			}
+			if len(call.Args) != 1 || SelField(info, call.Args[0]) == nil {
+				continue
+			}
+			mk := g.NodeOf(call)
+			if mk == nil {
+				continue
+			}
+			heldAtMake := p.MustHeldAt(f, mk)
+			if len(heldAtMake) == 0 {
+				continue
+			}
+			n++
+			// where is it consumed: a range over the call itself or over the variable it was bound to
+			var itVar *types.Var
+			if as, ok := p.Parent(call).(*ast.AssignStmt); ok && len(as.Lhs) == 1 {
+				itVar, _ = identObj(info, as.Lhs[0]).(*types.Var)
+			}
+			ast.Inspect(f.Body, func(x ast.Node) bool {
+				rs, ok := x.(*ast.RangeStmt)
+				if !ok {
+					return true
+				}
+				src := ast.Unparen(rs.X)
+				if src != ast.Expr(call) && (itVar == nil || identObj(info, src) != itVar) {
+					return true
+				}
+				// the loop body executes with the locks held at its first statement
+				var at *Node
+				if len(rs.Body.List) > 0 {
+					at = g.NodeOf(rs.Body.List[0])
+				}
+				if at == nil {
+					at = g.NodeOf(rs.X)
+				}
+				heldAtUse := lockSet{}
+				if at != nil {
+					heldAtUse = p.MustHeldAt(f, at)
+				}
+				for mu := range heldAtMake {
+					if !heldAtUse[mu] {
+						bad++
+						c.R.Violate("R-GUARD/iter", p.Pos(rs), f.Name, "iterator over "+exprStr(call.Args[0])+" consumed under "+p.lockName(mu),
+							exprStr(call.Fun)+" returns a lazy iterator: the map is read while this loop runs, and "+p.lockName(mu)+" - held when the iterator was created - has been released by then, so the iteration races with the writers of the map (a concurrent insert is a fatal \"concurrent map iteration and map write\")", nil)
+					}
+				}
+				return true
+			})
+		}
+	}
+	if bad == 0 {
+		c.R.Hold("R-GUARD/iter", "-", "", "lazy iterators over guarded collections", fmt.Sprintf("%d iterator(s) created under a mutex; each is consumed with that mutex held", n), n > 0)
+	}
+}
